@@ -23,7 +23,7 @@ from mc import core
 from mc.refs import relmodel, oalast as A, oaleval as E
 
 NEEDS_BRIDGEPOINT = True
-BUDGET_S = {'quick': 300, 'thorough': 2400}
+BUDGET_S = {'quick': 3600, 'thorough': 14400}
 ASSUMPTIONS = [
     'derived attribute bodies use the dialect of the repository tests ("self.<attr> = <expr>;")',
     'constants are read by their bare name (the form mk_component registers); enumerators as <Enum>::<name>',
